@@ -352,6 +352,42 @@ claim(
     "DESIGN.md §5.2 C48",
 )
 
+claim(
+    "C30",
+    "Graphs, subgraph clearing, setAllNodesIncomplete and the wave executor are modelled with the code's counters and "
+    "dependents lists (Model/Graph.lean). Proved: for every acyclic graph in a consistent counter state the executor runs "
+    "exactly the incomplete nodes, each once, every node after all of its incomplete predecessors, and everything ends "
+    "complete; complete nodes are not run (C30_execute, C30_execute_skips_completed); every graph built from the empty graph "
+    "by addSubgraph / addNode / dependsOn / biPropDependsOn is in such a state, so it can be executed directly "
+    "(C30_construction_consistent, C30_construction_execute), as is any graph after setAllNodesIncomplete "
+    "(C30_setAll_consistent); Subgraph::clear removes exactly the edges touching the cleared nodes and keeps numPredecessors "
+    "equal to the in-degree (C30_clear, including the swap-with-last removal with early exit). Tie: random DAGs with "
+    "subgraphs, clear/rebuild sequences and all three executors on a real pool; counters, dependents lists, run order "
+    "(single-thread) / run set (parallel executors) compared with the model after every step; oracle: run-once, dependency "
+    "order by timestamps, completeness.",
+    "Trusted: Lean kernel; hand-written model checked on the explored graphs; fewer than 2^64-1 edges (EdgeBound); the "
+    "parallel_for and ConcurrentTaskSet executors are modelled by the same wave semantics (their run *set* and final state "
+    "are compared, the dependency order of their concurrent runs is checked by the oracle only).",
+    "Lean 4 proof (loop invariants of the wave executor, construction and clear) + differential correspondence",
+    "DESIGN.md §5.4 C30",
+)
+
+claim(
+    "C31",
+    "ForwardPropagator and the BiProp set bookkeeping are modelled (Model/Graph.lean). Proved: after propagation the "
+    "incomplete nodes are exactly the forward-dependency closure of the marked nodes (C31_propagate), for BiProp graphs "
+    "plus every member of a set that intersects the closure (C31_propagate_biprop), and the counters are consistent, so the "
+    "executor then re-runs exactly that set in dependency order (C31_reexecute, C31_reexecute_biprop); "
+    "setAllNodesIncomplete gives a full evaluation (C31_setAll_full); set merging keeps sets as equivalence classes — all "
+    "members of both sets are repointed (C31_sets_ok, C31_sets_merge). Tie as C30, with the set of incomplete nodes after "
+    "propagation compared against an independent closure computed by the harness (union-find over the declared BiProp "
+    "edges).",
+    "Trusted: as C30. For BiProp graphs dependents of set members that were only pulled in by the set stay complete (the "
+    "proved statement says what holds instead of Closed).",
+    "Lean 4 proof (BFS invariant, closure characterisation) + differential correspondence",
+    "DESIGN.md §5.4 C31",
+)
+
 ALL = ["C%02d" % i for i in range(1, 49)]
 for _p in ALL:
     if _p not in CLAIMED:
